@@ -3,6 +3,8 @@ REGISTRY = {
     'C01': ['base_core', 'handles'],
     'C06': ['base_core', 'handles'],
     'C02': ['core'],
+    'C03': ['base_core', 'handles', 'core', 'event', 'strand', 'when'],
+    'C04': ['base_core', 'strand', 'event'],
     'C05': ['thread_pool', 'strand', 'core'],
     'C07': ['strand'],
     'C08': ['thread_pool'],
@@ -14,6 +16,7 @@ REGISTRY = {
     'C17': ['fault_sched'],
     'C18': ['fiber_locks'],
     'C19': ['atomic'],
+    'C20': ['alloc'],
 }
 LEVEL = {'C04': 'other'}
 # properties decided only by obligations explicitly tagged with them (the order discipline is asserted at every atomic operation)
@@ -41,6 +44,16 @@ CLAIMS = {
                 'accessor; reference-count thresholds of ResultCore::Impl are in unit result_core when present.',
         'design': 'DESIGN.md 6 C06, 5.B, 5.I, A.2',
     },
+    'C20': {
+        'text': 'Allocation-effect contracts on effect skeletons extracted from the real bodies (control structure kept, every statement replaced by its allocation '
+                'effect): exactly one block for MakeUnique / MakeShared / MakeCore / MakeUniqueJob / MakeContract(On) / MakeFuture / MakeTask / detail::Run / '
+                'RunShared / Schedule / detail::SetCallback / Then / ThenInline / DetachInline; zero for Future::Detach, Future::Get, Strand::Submit, WaitRange, '
+                'WaitCore and the registration loops of the combinators (loop invariant: no allocation inside, i.e. independent of the number of inputs); When: '
+                '0 or 2; All<None> destructor: one reserve and an allocation-free append loop.',
+        'note': 'Effect abstraction: conditions are non-deterministic (every syntactic path), callee effects come from the callee\'s own contract; std::vector '
+                'allocation behaviour is a stated model; user functors / payload constructors are outside. Replay: counting global operator new on the real library.',
+        'design': 'DESIGN.md 6 C20, 5.H',
+    },
     'C02': {
         'text': 'Every function of Core<...> is extracted and proved against a routing spec written from the property text, one job per '
                 'configuration of the compile-time predicates (signature class x return kind x Run/Then/ThenInline x unique/shared source): '
@@ -53,6 +66,30 @@ CLAIMS = {
                 'signature classes (is_invocable_v, Return<>, MakeCore type computation) is configuration input, not proved; step order is the '
                 'Loop / Here token discipline of C01. quick = 4 return kinds, thorough = the full product.',
         'design': 'DESIGN.md 6 C02, 5.A',
+    },
+    'C03': {
+        'text': 'Ownership layer of the other units (ghost tokens / counters, method E): Done (save caller, store, release caller exactly once iff owned, destroy the '
+                'functor exactly once unless Async, publish - in that order; the union member _self is not read after Store), CallImpl (functor storage destroyed '
+                'exactly once on every path: return, throw, pass-through), CallResolveAsync (release of the predecessor, functor destroyed once), '
+                'SetResultImpl<Shared> (exactly three promise references, one before the last callback, ->next read before the callback runs), '
+                'AtomicCounter::Sub (Delete iff the decrement reached zero), TimedWaiter two-owner release, Retire (move then release once), ResultCore::Impl '
+                'thresholds, Drop core, Promise / Future / Task destructors (release exactly once iff still owned), strand / event walks (no access after '
+                'Call / Drop), WhenAll destructors (every input retired or released exactly once), UniqueJob via the executor contracts.',
+        'note': 'Per-function release-exactly-once and no-use-after-release; quiescent leak-freedom of a whole pipeline is the induction over these per-object '
+                'contracts (meta-argument, stated, not machine-checked); destructors of user functors / payloads and the coroutine frame are outside.',
+        'design': 'DESIGN.md 6 C03, 5.E',
+    },
+    'C04': {
+        'text': 'Ownership-transfer order discipline (method F) asserted at every atomic operation of the rely/guarantee units: a step whose ghost update '
+                'gives away plain data (Result, continuation object, job objects, waiter objects, the reference that keeps an object alive) must carry '
+                'release, a step that takes it must carry acquire (or be followed by an acquire fence before returning true, AtomicCounter::SubEqual in both '
+                'TSAN variants); covered words: callback word unique and shared (SetCallbackImpl, SetResultImpl, ResetImpl, Empty), strand word (Submit, Call, '
+                'Drop), OneShotEvent head (TryAdd, SetImpl, Ready), reference / wait counter.',
+        'note': 'A sufficient discipline on the modelled hand-offs, not an exploration of weak-memory executions (level other): trusted meta-theorem that '
+                'owner-only access plus release->acquire ownership transfer is data-race free. Not under the discipline: WhenAny/WhenAll state words (argued '
+                'to move no plain data), coroutine Mutex / SharedMutex words, FairThreadPool and MutexEvent (mutex-protected: monitor proofs of C08/C11), '
+                'WaitGroup::Count, Injector.',
+        'design': 'DESIGN.md 6 C04, 5.F',
     },
     'C05': {
         'text': 'Executor contracts proved per implementation: Inline<Stopped>::Submit (Call xor Drop, Drop iff the stopped instance), '
